@@ -40,7 +40,7 @@ ASSUMPTIONS = [
     'listed root causes are excluded by construction only while a probe at start-up shows that they still reproduce (TypeDef + dataflow attach, pragma ending in the word end, Transformer stripping empty CASE/WHERE bodies)',
 ]
 SHARDS = {'quick': 8, 'thorough': 16}
-BUDGET = {'quick': 75, 'thorough': 1200}
+BUDGET = {'quick': 60, 'thorough': 1200}
 
 NODE_TYPES = ['Loop', 'WhileLoop', 'CallStatement', 'VariableDeclaration', 'ProcedureDeclaration']
 REGION_KEYWORDS = [None, None, 'loki', 'acc', 'omp', 'LOKI']
@@ -66,19 +66,19 @@ def _ctx_op(children, allow_dfa=True):
     return st.one_of(opts)
 
 
-def nested_history(allow_dfa=True):
+def nested_history(allow_dfa=True, big=False):
     leaf = st.just({'op': 'query'})
     mk = lambda ch: _ctx_op(ch, allow_dfa)   # noqa
-    op = st.recursive(leaf, mk, max_leaves=5)
-    return st.lists(mk(op), min_size=1, max_size=2).map(lambda ops: {'mode': 'nested', 'ops': ops})
+    op = st.recursive(leaf, mk, max_leaves=9 if big else 5)
+    return st.lists(mk(op), min_size=1, max_size=3 if big else 2).map(lambda ops: {'mode': 'nested', 'ops': ops})
 
 
 @st.composite
-def flat_history(draw, allow_dfa=True):
+def flat_history(draw, allow_dfa=True, big=False):
     """non-LIFO interleaving of attach/detach function pairs; every attach is detached"""
     steps, active, n = [], [], 0
-    for _ in range(draw(st.integers(2, 7))):
-        if active and (len(active) >= 3 or draw(st.booleans())):
+    for _ in range(draw(st.integers(2, 12 if big else 7))):
+        if active and (len(active) >= (5 if big else 3) or draw(st.booleans())):
             i = draw(st.integers(0, len(active) - 1))
             steps.append(['detach', active.pop(i)])
         else:
@@ -97,9 +97,10 @@ def flat_history(draw, allow_dfa=True):
     return {'mode': 'flat', 'steps': steps}
 
 
-def history(allow_dfa=True):
-    n = nested_history(allow_dfa)
-    return st.one_of(n, n, n, flat_history(allow_dfa))
+def history(allow_dfa=True, big=False):
+    """``big`` (thorough tier): deeper nesting, more contexts per history, longer interleavings"""
+    n = nested_history(allow_dfa, big)
+    return st.one_of(n, n, n, flat_history(allow_dfa, big))
 
 
 HISTORIES_PER_UNIT = 3      # parse / build once, run several histories on the unit while it stays clean
@@ -110,13 +111,13 @@ def has_op(hist, kind):
 
 
 @st.composite
-def parsed_cases(draw, triggers):
+def parsed_cases(draw, triggers, big=False):
     no_bare_end = bool(triggers.get('regions-attach-raises-on-bare-end'))
     u = draw(pragsrc.unit_source(allow_bare_end=not no_bare_end))
     # listed finding: attaching dataflow info raises on every unit that contains a derived-type definition;
     # while it reproduces, histories of such units are generated without dataflow operations
     no_dfa = bool(triggers.get('dfa-attach-raises-on-TypeDef')) and u['typedef']
-    hists = draw(st.lists(history(allow_dfa=not no_dfa), min_size=HISTORIES_PER_UNIT, max_size=HISTORIES_PER_UNIT))
+    hists = draw(st.lists(history(allow_dfa=not no_dfa, big=big), min_size=HISTORIES_PER_UNIT, max_size=HISTORIES_PER_UNIT))
     case = {'dom': 'src', 'unit': u['unit'], 'name': u['name'], 'src': u['src'], 'hists': hists}
     excluded = []
     if no_dfa:
@@ -185,13 +186,13 @@ BARE_END = 'end'
 
 
 @st.composite
-def synthetic_cases(draw, triggers):
+def synthetic_cases(draw, triggers, big=False):
     """
     irtree/gen.py tree (with equal copies of leaves, loops and conditionals) decorated with source-less pragmas:
     runs of pragmas before / after every child of every body, planted region pairs, stray region pragmas.
     Pragmas with the same keyword and text are *equal* nodes (no source), which region matching has to tell apart.
     """
-    tree = draw(tgen.tree_strategy(max_leaves=10, kinds=TREE_KINDS))
+    tree = draw(tgen.tree_strategy(max_leaves=20 if big else 10, kinds=TREE_KINDS))
     vocab = list(PRAGMA_TEXTS)
     excluded = []
     if triggers.get('regions-attach-raises-on-bare-end'):
@@ -262,7 +263,7 @@ def synthetic_cases(draw, triggers):
         spec += run(40)
         spec.append({'k': 'VariableDeclaration', 'm': 500 + i})
     spec += run(40)
-    hists = draw(st.lists(history(), min_size=HISTORIES_PER_UNIT, max_size=HISTORIES_PER_UNIT))
+    hists = draw(st.lists(history(big=big), min_size=HISTORIES_PER_UNIT, max_size=HISTORIES_PER_UNIT))
     case = {'dom': 'tree', 'spec': spec, 'tree': tree, 'hists': hists}
     if filled[0]:
         excluded.append('empty CASE/WHERE branch body (listed C14 finding: generic Transformer strips it)')
@@ -597,7 +598,8 @@ class Runner:
             lost = [self._pragmas[i] for i in self._pragmas if i not in now]
             again = any(o is not op and o['op'] == 'pragmas' and op['op'] == 'pragmas'
                         and set(o['types']) & set(op['types']) for o in self.active)
-            what = 'lost' if lost else 'appeared'
+            new = [i for i in now if i not in self._pragmas]
+            what = 'replaced' if (lost and new) else 'lost' if lost else 'appeared'
             sig = f'C16:pragma-objects-{what}:{stage}:{op["op"]}' + (':same-node-types-already-attached' if again else '')
             shown = ', '.join(f'!${x.keyword} {x.content}' for x in lost[:3])
             self.fail(sig, f'{stage} of {_opname(op)}: {len(self._pragmas)} -> {len(now)} Pragma objects in the unit'
@@ -938,7 +940,7 @@ def run_shard(ctx):
     for k, v in trig.items():
         ctx.note(f'listed root cause {k}: ' + ('still reproduces -> trigger excluded by construction' if v
                                                 else 'no longer reproduces -> trigger generated'))
-    par, syn = parsed_cases(trig), synthetic_cases(trig)
+    par, syn = parsed_cases(trig, ctx.thorough), synthetic_cases(trig, ctx.thorough)
     total_p, total_s = ctx.scale(480, 16000), ctx.scale(800, 40000)     # units; x HISTORIES_PER_UNIT evaluations
     k = 0
     while (total_p > 0 or total_s > 0) and not ctx.out_of_time():
